@@ -866,8 +866,14 @@ class ProgGen:
                     ptypes.append(r.choice(self.scalar_types()))
             if self.feat('overloads') and self.planned and self.chance(0.4):
                 base = r.choice(self.planned)
-                if tuple(ptypes) not in [s[1] for s in self.planned if s[0] == base[0]]:
+                if tuple(ptypes) not in [s[1] for s in self.planned if s[0] == base[0]] and (
+                        len(ptypes) >= 2 or base[0] not in ('write', 'writeln', 'sleep', 'debug', 'progress')):
                     name = base[0]
+            if self.feat('overloads') and len(ptypes) >= 2 and self.chance(0.12):
+                # a user overload of a library name: two or more parameters, so that it can never capture
+                # the generator's own one-argument write()/sleep() calls; the library routine and the user
+                # function then live in one overload set
+                name = r.choice(('write', 'writeln', 'sleep', 'debug', 'progress'))
             recursive = self.feat('recursion') and self.chance(0.3)
             if recursive:
                 ptypes = ['int'] + ptypes
